@@ -307,6 +307,54 @@ def interrupt_wrappers(ctx, pexpect):
     ctx.oracle_stats['interrupt_wrapper_runs'] = tried
 
 
+def wait_primitives_report_readiness(ctx, pexpect):
+    """the other half of the wait primitives: whatever the kernel reports for a descriptor - readable, urgent data, HANG-UP, error -
+    means "a read will not block" (data, end of file or an error will come out), so the descriptor must be handed back as ready;
+    dropping a hang-up makes the caller take the end of the stream for a silent peer and report TIMEOUT at once.  Scripted
+    poll()/select() results, plus a real pipe whose writer has closed."""
+    import select as real_select
+    import pexpect.utils as U
+    tried = 0
+    for name, mask in (('POLLIN', real_select.POLLIN), ('POLLPRI', real_select.POLLPRI), ('POLLHUP', real_select.POLLHUP),
+                       ('POLLERR', real_select.POLLERR), ('POLLIN|POLLHUP', real_select.POLLIN | real_select.POLLHUP)):
+        class FakeSelectMod:
+            error = OSError
+            POLLIN, POLLPRI, POLLHUP, POLLERR = real_select.POLLIN, real_select.POLLPRI, real_select.POLLHUP, real_select.POLLERR
+            POLLNVAL = real_select.POLLNVAL
+
+            class poll:
+                def register(self, fd, m=None):
+                    pass
+
+                def poll(self, ms=None):
+                    return [(5, mask)]
+        old = U.select
+        U.select = FakeSelectMod
+        try:
+            r = U.poll_ignore_interrupts([5], 1)
+        finally:
+            U.select = old
+        tried += 1
+        if list(r) != [5]:
+            ctx.hit('C05/poll-readiness', 'poll_ignore_interrupts: the kernel reported %s for the descriptor, the wrapper handed back %r' % (name, r), {'event': name})
+            return
+    # a real pipe at its end: both primitives must say "ready" at once
+    r_, w_ = os.pipe()
+    os.close(w_)
+    try:
+        t0 = time.time()
+        a = U.select_ignore_interrupts([r_], [], [], 2)[0]
+        b = U.poll_ignore_interrupts([r_], 2)
+        d = time.time() - t0
+    finally:
+        os.close(r_)
+    tried += 1
+    if list(a) != [r_] or list(b) != [r_] or d > 1:
+        ctx.hit('C05/poll-readiness', 'a pipe whose writer has closed: select wrapper %r, poll wrapper %r after %.2f s (both must report it ready at once)' % (a, b, d), {})
+        return
+    ctx.oracle_stats['wait_primitive_readiness'] = tried
+
+
 def real_time(ctx, pexpect, thorough):
     """real children: the overall bound and no early timeout (generous tolerances; validates the environment law)"""
     T = 0.6
@@ -357,18 +405,26 @@ def wait_budget(ctx, pexpect, n):
     for it in range(n):
         which = rng.choice([0, 1, 2])
         use_poll = rng.random() < 0.5
-        sched = T.gen_sched(rng, rng.randint(2, 14))
+        uni = rng.random() < 0.4
+        sched = T.gen_sched_unicode(rng, rng.randint(2, 14)) if uni else T.gen_sched(rng, rng.randint(2, 14))
         sim = T.Sim(b'', True, True, sched)
         calls = [(rng.choice([1, 3, 100]), rng.random() < 0.3) for _ in range(rng.randint(1, 4))]
         # the time each read may take: nothing, some, or no limit (None: it must then WAIT, whatever timeout the socket object
         # itself carries - its own timeout is varied between the reads by the harness, non-blocking mode included)
         tmos = [0 if t0 else rng.choice([5, 5, 0.5, None]) for _, t0 in calls]
         try:
-            obs, c = T.run_calls(pexpect, which, sim, calls, use_poll=use_poll, timeouts=tmos)
+            obs, c = T.run_calls(pexpect, which, sim, calls, use_poll=use_poll, timeouts=tmos, encoding='utf-8' if uni else None)
         except Exception:
             continue                # judged by C06
         tried += 1
         for r, waits, outcome in c._verif_waits:
+            if outcome == 3 and which != 2:
+                # the code read the descriptor without having been told that it is readable: on a blocking descriptor that read
+                # waits for as long as the peer stays silent - no deadline at all (e.g. after a read that delivered only the
+                # first bytes of a character)
+                ctx.hit('C05/unwaited-read', '%s read_nonblocking(timeout=%r) (use_poll=%s, %s): a read was made that no select/poll had announced; with a silent peer it never returns'
+                        % (['pty', 'fd', 'socket'][which], r, use_poll, 'utf-8' if uni else 'bytes'), {'transport': which, 'sched': repr(sched), 'calls': calls, 'timeouts': tmos, 'unicode': uni})
+                return
             if r is None:
                 if outcome in (2, 3) or any(w not in (None, 0) for w in waits):
                     ctx.hit('C05/none-waits', '%s read_nonblocking(timeout=None) (use_poll=%s) %s; the waits it asked of the kernel were %r (each must be a plain poll or unlimited)'
@@ -482,6 +538,7 @@ def run(ctx):
         ctx.corr_broken.append(('vclock-loop', {'error': 'model did not build'}))
     conventions(ctx, pexpect)
     interrupt_wrappers(ctx, pexpect)
+    wait_primitives_report_readiness(ctx, pexpect)
     popen_read_law(ctx, pexpect, 6000 if thorough else 1500)
     wait_budget(ctx, pexpect, 4000 if thorough else 800)
     real_time(ctx, pexpect, thorough)
